@@ -26,7 +26,7 @@ InvInvalidTraps == Done /\ key[1] \notin ValidOps => res.exit = "panic"
 \* an instruction that does not continue changes nothing but gas (and pc); registers named loose excepted
 InvNoSideEffectOnExit ==
   Done /\ res.exit # "cont" =>
-     /\ \A i \in 1..13 : (i - 1) \in res.loose \/ res.s.regs[i] = RegsA[i]
+     /\ \A i \in 1..13 : res.s.regs[i] = RegsA[i] \/ (key[1] \in {80, 180} /\ i - 1 = Min2(12, Zeta(P(key), Start(key).pc + 1) % 16))
      /\ res.s.data = St0.data /\ res.s.acc = St0.acc /\ res.s.hp = St0.hp
 InvPanicHaltPc == Done /\ res.exit \in {"panic", "halt"} => res.s.pc = 0
 InvFaultPc == Done /\ res.exit = "fault" => res.s.pc = Start(key).pc /\ AddrOf(Low(res.arg, 4)).page >= 16
